@@ -433,11 +433,10 @@ as numpy.loadtxt will not work as expected."""
                   dtype=[(np.str_('<;'), '<i8'), (np.str_(';<'), '<i8')])
 
         """
-        return numpy.ndarray(
-            shape=self.shape,
+        return numpy.ndarray.view(
+            self,
             dtype=[(key, self.dtype) for key in self.keys],
-            buffer=self.data,
-            strides=self.strides,
+            type=numpy.ndarray,
         )
 
     def isconstant(self) -> bool:
